@@ -173,6 +173,11 @@ def generate(tier, seed):
     for i in range(ncase):
         fam = fams[i % 3]
         spec = getattr(P, "random_" + fam)(rng)
+        if i % 5 == 3:
+            # extreme units (T_n ~ 1e4 or 1e-4 numerically, e.g. a TeV-scale transition in GeV
+            # or an MeV-scale one in TeV): absolute tolerances on lengths hidden in the code
+            # only bite when the wall is thinner than them in absolute terms
+            spec["s"] = float(10 ** (rng.choice([-1.0, 1.0]) * rng.uniform(3.3, 4.3)))
         nf = 2 if fam == "poly2" else 1
         spec, rel = _relabel(rng, spec, nf)
         cases.append({"i": i, "family": fam, "spec": spec, "relabelled": rel,
